@@ -84,6 +84,7 @@ class RefAgent:
         self.hook_raw: Optional[Callable[[dict, bytes], Optional[bytes]]] = None
         self.set_normalise: Optional[Callable[[tuple, S.Value], S.Value]] = None
         self.require_exact_level = True
+        self.max_bulk_bindings = 400
 
     # -- MIB ----------------------------------------------------------------------
     def set_mib(self, mib: Dict[tuple, S.Value]) -> None:
@@ -174,6 +175,8 @@ class RefAgent:
                 max_rows = max(1, min(m, policy[1]))
             if reps:
                 for rep in range(max_rows):
+                    if len(rows) * len(reps) >= self.max_bulk_bindings:
+                        break  # response size limit: a conformant truncation (RFC 3416 4.2.3)
                     row = [self._getnext_one(o, rep, req) for o in cur]
                     rows.append(row)
                     cur = [r[0] for r in row]
